@@ -12,10 +12,10 @@ EXTRACT = ("theories/Extract/XC08.v", "c08",
 PYX = {"_cpmorphology2.pyx": ["fill_labeled_holes_loop"]}
 RULE = ("corpus of hand-drawn scenes (bullseyes, shared holes, multi-parent clusters, split labels) first; every "
         "image of a small shape over a small label alphabet (quick: all 3x3 over {0,1,2} and all 2x3 over {0,1,2,3}; "
-        "thorough: all 3x4 over {0,1,2} = 531441 and all 3x3 over {0,1,2,3}) in batches of 48; random label images "
+        "thorough: all 3x4 over {0,1,2} = 531441 and all 2x4 over {0,1,2,3}) in batches of 48; random label images "
         "(shapes skewed to 1xN/Nx1/small, noise labels at several densities, nested rings, blobs relabelled by "
         "connected component, split and absent label numbers, many labels, multi-parent corridors) in bool/uint8/"
-        "uint16/int32/int64; checkerboards (quick 120x120 > 7000 regions, thorough 380x380 > 64K regions); "
+        "uint16/int32/int64; checkerboards (quick 120x120 > 7000 regions; thorough 200x200 = 20000 regions through the model and 380x380 > 64K regions against binary_fill_holes only); "
         "non-trivial = at least one region is repainted; distinct by hash of the case")
 TRUSTED = [
     "modelled, not verified: scipy.ndimage.label (the model takes blabels/count as an argument; theorems assume "
@@ -32,6 +32,7 @@ ASSUMPTIONS = ["labels are non-negative integers below 2^31 (uint32 casts in the
 EXHAUSTIVE = {"quick": False, "thorough": True}
 CASE_TIMEOUT = 120
 BATCH = 48
+MODEL_MAX_SIDE = 250
 CHECK_MAX_PIX = 1200        # the verified spec checker is quadratic in the number of edges
 
 CORPUS = [
@@ -119,7 +120,7 @@ def generate(ctx):
                 with open(os.path.join(cdir, name)) as f:
                     c = json.load(f)
                 cases.append({"k": "one", "lab": c["lab"], "dt": c.get("dt", "int64")}); ctx.count("corpus")
-    sweeps = ctx.n([(3, 3, 3), (2, 3, 4)], [(3, 4, 3), (3, 3, 4)])
+    sweeps = ctx.n([(3, 3, 3), (2, 3, 4)], [(3, 4, 3), (2, 4, 4)])
     for H, W, K in sweeps:
         total = K ** (H * W)
         for s in range(0, total, BATCH):
@@ -138,7 +139,12 @@ def generate(ctx):
         cases.append({"k": "one", "lab": lab.tolist(), "dt": dt}); ctx.count("random_" + dt)
     for n in ctx.n([120], [120, 200, 380]):
         cb = (np.indices((n, n)).sum(0) % 2)
-        cases.append({"k": "one", "lab": cb.tolist(), "dt": "int32"}); ctx.count("checkerboard")
+        c = {"k": "one", "lab": cb.tolist(), "dt": "int32"}
+        if n > MODEL_MAX_SIDE:
+            # > 64K regions: implementation only (binary_fill_holes agreement, idempotence, dtype); the extracted
+            # model's non-tail-recursive list code is super-linear at this size (minutes)
+            c["nomodel"] = 1; ctx.count("model_skipped_large")
+        cases.append(c); ctx.count("checkerboard")
     cb = (np.indices((60, 60)).sum(0) % 2)
     cb[0, :] = 1; cb[-1, :] = 1; cb[:, 0] = 1; cb[:, -1] = 1
     cases.append({"k": "one", "lab": cb.tolist(), "dt": "uint8"}); ctx.count("checkerboard")
@@ -259,7 +265,7 @@ def _par(ctx, entry, args, nproc=6):
 def model(ctx, cases, outs):
     args, where = [], []
     for k, (c, o) in enumerate(zip(cases, outs)):
-        if _bad(o):
+        if _bad(o) or c.get("nomodel"):
             continue
         for n, (lab, r) in enumerate(zip(_images(c), o["r"])):
             args.append([lab, r[1], r[2], r[:12]]); where.append((k, n))
@@ -277,6 +283,8 @@ _FIELDS = ["out", "blabels", "count", "called", "i", "j", "idx", "i_count", "is_
 def compare(case, out, m):
     if _bad(out):
         return "implementation raised/crashed: %s" % (str(out)[:300],)
+    if case.get("nomodel"):
+        return None
     imgs = _images(case)
     for n, (lab, r) in enumerate(zip(imgs, out["r"])):
         if n >= len(m) or m[n] != [1, 1]:
